@@ -58,6 +58,8 @@ def binary_table(ctx: Ctx, h: Harness):
         "reference (raw)": lambda n: ("BinaryDataEncoding(size_reference_parameter='N', use_calibrated_value=False)", {"N": ("Float", float(n) + 40.0, n)}, n),
         "reference (raw) with adjustment 8x-8": lambda n: (("BinaryDataEncoding(size_reference_parameter='N', use_calibrated_value=False, "
                                                              "linear_adjuster=lambda x: 8 * x - 8)"), {"N": ("Float", 99.0, n // 8 + 1)}, 8 * (n // 8 + 1) - 8),
+        "reference (calibrated 2.5 words) with adjustment 16x": lambda n: (("BinaryDataEncoding(size_reference_parameter='N', "
+                                                                           "linear_adjuster=encodings_adjuster(16, 0))"), {"N": ("Float", 2.5, 5)}, 40) if n == 8 else None,
         "lookup (first match wins, later entries also match)": lambda n: ((f"BinaryDataEncoding(size_discrete_lookup_list=[{CMP}.DiscreteLookup([{CMP}.Comparison('7', 'M')], 99), "
                                                                            f"{CMP}.DiscreteLookup([{CMP}.Comparison('1', 'M')], {n}), {CMP}.DiscreteLookup([{CMP}.Comparison('1', 'M')], 40)])"),
                                                                           {"M": ("Int", 1, None)}, n),
@@ -149,7 +151,33 @@ def string_table(ctx: Ctx, h: Harness):
                 ctx.decide(ok, "R7.str", site, "", _why(kind, got, pkt, want, rawbuf, off + nbits), where=where(fi, fi.node))
             except Unsupported as e:
                 ctx.unknown("R7.str", site, str(e))
-        # (c) leading size tag (bits), several tag widths and offsets
+        # (b2) the terminator is the last character of the buffer
+        site = f"{fi.key}::{ename}::terminator in the last slot"
+        try:
+            body = {"US-ASCII": b"AB", "UTF-8": b"AB", "UTF-16BE": "AB".encode("utf-16-be"), "UTF-16LE": "AB".encode("utf-16-le")}[ename]
+            buf = body + bytes.fromhex(term_hex)
+            pkt = mk_packet(h, 0, {}, buf + b"\xff")
+            kind, got = h.outcome(f"StringDataEncoding(encoding={enc!r}, fixed_raw_length={8 * len(buf)}, termination_character={term_hex!r}).parse_value(pkt)",
+                                  ENC, pkt=pkt)
+            ok = kind == "ok" and str(got) == "AB" and got.attrs.get("raw_value") == buf and pkt.attrs["raw_data"].attrs.get("pos") == 8 * len(buf)
+            ctx.decide(ok, "R7.str", site, "", _why(kind, got, pkt, "AB", buf, 8 * len(buf)), where=where(fi, fi.node))
+        except Unsupported as e:
+            ctx.unknown("R7.str", site, str(e))
+    # (b3) generic UTF-16 (byte order mark) with a leading size tag whose length is not a multiple of 32 bits
+    for nch in (2, 4, 6):
+        site = f"{fi.key}::UTF-16 leading size::{nch} chars"
+        try:
+            text = ("ABCDEF"[:nch]).encode("utf-16")            # BOM + native order
+            field = format(8 * len(text), "016b") + bits_of(text)
+            data = right_padded(field + "1")
+            pkt = mk_packet(h, 0, {}, data)
+            kind, got = h.outcome(f"StringDataEncoding(encoding='UTF-16', byte_order='leastSignificantByteFirst', fixed_raw_length={len(field)}, "
+                                  f"leading_length_size=16).parse_value(pkt)", ENC, pkt=pkt)
+            ok = kind == "ok" and str(got) == "ABCDEF"[:nch] and pkt.attrs["raw_data"].attrs.get("pos") == len(field)
+            ctx.decide(ok, "R7.str", site, "", _why(kind, got, pkt, "ABCDEF"[:nch], right_padded(field), len(field)), where=where(fi, fi.node))
+        except Unsupported as e:
+            ctx.unknown("R7.str", site, str(e))
+    # (c) leading size tag (bits), several tag widths and offsets
     fi2 = fi
     for off, tagw, nchars in itertools.product((0, 2, 7), (8, 5, 16), (0, 1, 3)):
         site = f"{fi.key}::leading size::offset {off}, {tagw}-bit tag, {nchars} chars"
@@ -260,8 +288,26 @@ def xml_lengths(ctx: Ctx):
             ctx.unknown("R7.xml", site, str(e))
 
 
+def _adjuster_factory(prog):
+    """Linear adjusters built by the library's own LinearAdjustment reader from a model element."""
+    from ..xmlmodel import make_elem
+    from . import xmlcommon as X
+    hx = X.harness(prog)
+    hx.it.class_state[("NamespaceAwareElement", "_ns_prefix")] = None
+    hx.it.class_state[("NamespaceAwareElement", "_nsmap")] = {}
+
+    def mk(slope, intercept):
+        el = make_elem("P", children=[make_elem("LinearAdjustment", {"slope": str(slope), "intercept": str(intercept)})])
+        return hx.ev("DataEncoding._get_linear_adjuster(el)", ENC, el=el)
+    return mk
+
+
 def check(ctx: Ctx) -> None:
     h = Harness(ctx.prog)
+    try:
+        h.it.ext["encodings_adjuster"] = _adjuster_factory(ctx.prog)
+    except Exception:
+        pass
     ctx.guard("R7.bin", ENC, binary_table, ctx, h)
     ctx.guard("R7.str", ENC, string_table, ctx, h)
     ctx.guard("R7.xml", ENC, xml_lengths, ctx)
